@@ -120,7 +120,7 @@ func init() {
 	})
 	theory["AccountKeeper.GetModuleAddress"] = func(x *Exec, f *Frame, st *State, c *CallInfo) Val {
 		a := moduleAddr(c.T(1))
-		st.assume(And(Neq(a, BytesNil), Not(UF("bytes_empty", SBool, a))))
+		st.assume(And(Neq(a, BytesNil), Not(bytesEmpty(a))))
 		return a
 	}
 }
